@@ -429,6 +429,160 @@ func runCDense(c *acase, seed int64, sum *core.Summary) {
 	judge(sum, c, "CDense.Conj(A)", c.Expect, out, toF(backing), toF(snapshot), toF(want), "")
 }
 
+// ---------------------------------------------------------------- SymDense / TriDense
+
+type symMethod struct {
+	name string
+	run  func(s, A *mat.SymDense, n int)
+	// copySem: the method is a plain element copy with no documented overlap rule
+	selfOK bool
+}
+
+func freshSym(n, salt int) *mat.SymDense {
+	d := make([]float64, n*n)
+	for p := range d {
+		d[p] = float64(1 + (p*5+salt)%11)
+	}
+	return mat.NewSymDense(n, d)
+}
+
+var symMethods = []symMethod{
+	{name: "SymDense.AddSym(A,f)", selfOK: true, run: func(s, A *mat.SymDense, n int) { s.AddSym(A, freshSym(n, 1)) }},
+	{name: "SymDense.AddSym(f,A)", selfOK: true, run: func(s, A *mat.SymDense, n int) { s.AddSym(freshSym(n, 1), A) }},
+	{name: "SymDense.AddSym(s,A)", run: func(s, A *mat.SymDense, n int) { s.AddSym(s, A) }},
+	{name: "SymDense.ScaleSym(3,A)", selfOK: true, run: func(s, A *mat.SymDense, n int) { s.ScaleSym(3, A) }},
+	{name: "SymDense.SymRankOne(A,2,x)", selfOK: true, run: func(s, A *mat.SymDense, n int) { s.SymRankOne(A, 2, freshVec(n, 3)) }},
+	{name: "SymDense.SymRankK(A,2,x)", selfOK: true, run: func(s, A *mat.SymDense, n int) { s.SymRankK(A, 2, fresh(n, 2, 4)) }},
+	{name: "SymDense.CopySym(A)", selfOK: true, run: func(s, A *mat.SymDense, n int) { s.CopySym(A) }},
+}
+
+type triMethod struct {
+	name   string
+	run    func(t, A *mat.TriDense, n int)
+	selfOK bool
+}
+
+func freshTri(n, salt int, kind mat.TriKind) *mat.TriDense {
+	d := make([]float64, n*n)
+	for p := range d {
+		d[p] = float64(1 + (p*5+salt)%11)
+	}
+	return mat.NewTriDense(n, kind, d)
+}
+
+var triMethods = []triMethod{
+	{name: "TriDense.ScaleTri(3,A)", selfOK: true, run: func(t, A *mat.TriDense, n int) { t.ScaleTri(3, A) }},
+	{name: "TriDense.MulTri(A,f)", selfOK: true, run: func(t, A *mat.TriDense, n int) { t.MulTri(A, freshTri(n, 2, mat.Upper)) }},
+	{name: "TriDense.MulTri(f,A)", selfOK: true, run: func(t, A *mat.TriDense, n int) { t.MulTri(freshTri(n, 2, mat.Upper), A) }},
+	{name: "TriDense.InverseTri(A)", selfOK: true, run: func(t, A *mat.TriDense, n int) { t.InverseTri(A) }},
+	{name: "TriDense.Copy(A)", selfOK: true, run: func(t, A *mat.TriDense, n int) { t.Copy(A) }},
+}
+
+func runSymTri(c *acase, seed int64, sum *core.Summary) {
+	N := c.W1.PR
+	L := N * N
+	n, an := c.W1.R, c.W2.R
+	if n != an {
+		return
+	}
+	self := c.Rel == "self"
+	// whole-backing expectation: only the receiver's stored (upper) triangle may change
+	for mi := range symMethods {
+		sm := &symMethods[mi]
+		if c.Method != "" && c.Method != sm.name {
+			continue
+		}
+		if self && !sm.selfOK {
+			continue
+		}
+		mk := func(b []float64, w win) *mat.SymDense {
+			return mat.NewSymDense(N, b[:L]).SliceSym(w.I, w.K).(*mat.SymDense)
+		}
+		ref := fill(L, seed)
+		refRecv := mat.NewSymDense(n, nil)
+		refRecv.CopySym(mk(ref, c.W1))
+		refA := mat.NewSymDense(n, nil)
+		refA.CopySym(mk(append([]float64(nil), ref...), c.W2))
+		if self {
+			refA = refRecv
+		}
+		if core.Call(func() { sm.run(refRecv, refA, n) }).Panicked {
+			sum.Count("skipped_unaliased_panic", 1)
+			continue
+		}
+		backing := fill(L, seed)
+		snapshot := append([]float64(nil), backing...)
+		recv := mk(backing, c.W1)
+		A := recv
+		if !self {
+			A = mk(backing, c.W2)
+		}
+		out := core.Call(func() { sm.run(recv, A, n) })
+		want := append([]float64(nil), snapshot...)
+		for i := 0; i < n; i++ {
+			for j := i; j < n; j++ {
+				want[c.W1.Off+i*c.W1.St+j] = refRecv.At(i, j)
+			}
+		}
+		sum.Cases++
+		if c.Rel != "disjoint" {
+			sum.Nontrivial++
+		}
+		exp := c.Expect
+		if strings.Contains(sm.name, "CopySym") && exp == "panic" {
+			exp = "either" // a copy may handle overlap itself (as Dense.Copy does) or refuse it; it must not corrupt
+		}
+		judge(sum, c, sm.name, exp, out, backing, snapshot, want, "")
+	}
+	for mi := range triMethods {
+		tm := &triMethods[mi]
+		if c.Method != "" && c.Method != tm.name {
+			continue
+		}
+		if self && !tm.selfOK {
+			continue
+		}
+		mk := func(b []float64, w win) *mat.TriDense {
+			return mat.NewTriDense(N, mat.Upper, b[:L]).SliceTri(w.I, w.K).(*mat.TriDense)
+		}
+		ref := fill(L, seed)
+		refRecv := mat.NewTriDense(n, mat.Upper, nil)
+		refRecv.Copy(mk(ref, c.W1))
+		refA := mat.NewTriDense(n, mat.Upper, nil)
+		refA.Copy(mk(append([]float64(nil), ref...), c.W2))
+		if self {
+			refA = refRecv
+		}
+		if core.Call(func() { tm.run(refRecv, refA, n) }).Panicked {
+			sum.Count("skipped_unaliased_panic", 1)
+			continue
+		}
+		backing := fill(L, seed)
+		snapshot := append([]float64(nil), backing...)
+		recv := mk(backing, c.W1)
+		A := recv
+		if !self {
+			A = mk(backing, c.W2)
+		}
+		out := core.Call(func() { tm.run(recv, A, n) })
+		want := append([]float64(nil), snapshot...)
+		for i := 0; i < n; i++ {
+			for j := i; j < n; j++ {
+				want[c.W1.Off+i*c.W1.St+j] = refRecv.At(i, j)
+			}
+		}
+		sum.Cases++
+		if c.Rel != "disjoint" {
+			sum.Nontrivial++
+		}
+		exp := c.Expect
+		if strings.Contains(tm.name, "Copy(") && exp == "panic" {
+			exp = "either"
+		}
+		judge(sum, c, tm.name, exp, out, backing, snapshot, want, "")
+	}
+}
+
 func replay(in *core.Lines, args []string, seed int64, sum *core.Summary) error {
 	kinds := map[string]bool{}
 	for _, a := range args {
@@ -460,6 +614,8 @@ func replay(in *core.Lines, args []string, seed int64, sum *core.Summary) error 
 			if kinds["cdense"] && (c.Method == "" || strings.HasPrefix(c.Method, "CDense")) {
 				runCDense(c, seed, sum)
 			}
+		case "sym":
+			runSymTri(c, seed, sum)
 		case "vec":
 			runVec(c, seed, sum)
 		default:
